@@ -46,7 +46,20 @@ func callName(c *ssa.CallCommon) string {
 	if b, ok := c.Value.(*ssa.Builtin); ok {
 		return "builtin." + b.Name()
 	}
+	if g := funcVarOf(c.Value); g != nil && g.Pkg != nil {
+		return g.Pkg.Pkg.Path() + "." + g.Name()
+	}
 	return "dynamic"
+}
+
+// funcVarOf recognises a call through a package-level function variable (sdk.ZeroInt, sdkerrors.Wrapf ...).
+func funcVarOf(v ssa.Value) *ssa.Global {
+	if u, ok := v.(*ssa.UnOp); ok && u.Op == token.MUL {
+		if g, ok := u.X.(*ssa.Global); ok {
+			return g
+		}
+	}
+	return nil
 }
 
 // Origin is the result of a backward slice.
